@@ -179,6 +179,9 @@ class PE:
                 i = self.ev(e.slice)
             if v[0] == "list" and i[0] == "const" and isinstance(i[1], int) and -len(v) + 1 <= i[1] < len(v) - 1:
                 return v[1 + i[1]] if i[1] >= 0 else v[len(v) + i[1]]
+            if v[0] == "list" and i[0] == "slice" and all(b is None or (isinstance(b, tuple) and b[0] == "const" and (b[1] is None or isinstance(b[1], int))) for b in i[1:4]):
+                lo, hi, st = [(b[1] if b is not None else None) for b in i[1:4]]
+                return ("list",) + tuple(list(v[1:])[slice(lo, hi, st)])
             return ("sub[]", v, i)
         if isinstance(e, ast.Attribute):
             return ("attr", self.ev(e.value), e.attr)
